@@ -280,3 +280,10 @@ package syncer
 // before the next one is looked at; the capturing iterator stamps the
 // detection time and the id of this transaction; the shadow DBI is created
 // with no flag other than MDB_INTEGERKEY and carries the shadow prefix.
+
+// ---------------------------------------------------------------- receive-only wiring (C12)
+
+// A receive-only instance runs with the cleaner disabled.
+//@ func New
+//@   modifies *
+//@   ensures receive_only_disables_cleaner: r1 == nil && opt.ReceiveOnly ==> !r0.cleaner.conf.Enabled
